@@ -11,7 +11,7 @@ def run(ctx):
     ctx.bounds = {"quick": "35 names x octaves 1..7 x 35 shorthands x {up, down} + round trip; change_octave from octaves 0..4 by -6..3",
                   "thorough": "octaves 0..9"}[ctx.tier]
     ctx.rule = "TLC-enumerated (Gen_C10); distinct = distinct (operation, arguments); non-trivial = name with an accidental or a shorthand with an accidental"
-    ctx.nontrivial = lambda r: len(r["in"].get("n", [])) > 1 or len(r["in"].get("sh", [])) > 1 or "diff" in r["in"]
+    ctx.nontrivial = lambda r: r["op"] == "lift" or (isinstance(r["in"].get("n"), list) and len(r["in"]["n"]) > 1) or len(r["in"].get("sh", [])) > 1 or "diff" in r["in"]
     recs = ctx.execute("c10", cases)
     recs = [r for r in recs if r["op"] in ("transpose", "transpose_updown", "change_octave", "augdim")]
     ctx.validate("Trace_C10", recs, driver="c10")
